@@ -227,7 +227,7 @@ TOutObj ==
                        /\ \A c \in (DOMAIN node) \ consumed : node[c].members # <<>>
            d == IF stepwise /\ \E k \in 1..n : Ev.seqs[k] # Render(res[pos[k]], gaps[pos[k]]) THEN {"Out.rows#Render"} ELSE {}
        IN Report(OutChecks(Ev.names, Ev.seqs, TRUE)
-                 \cup (IF Ev.status # 3 THEN {"C01:status"} ELSE {})
+                 \cup (IF Ev.final # 1 THEN {"C01:status"} ELSE {})
                  \cup (IF Ev.rows = 1 /\ Len(Ev.seqs) > 0 /\ Len(Ev.seqs[1]) # Ev.alnlen THEN {"C01:alnlen"} ELSE {}), d)
 
 TOutFile ==
